@@ -1,6 +1,7 @@
-(* C06 — the race of two deliveries: every schedule, by reflection over the finite
-   domain (5 initial rows x 4 x 4 phases x 2^race_fuel schedule prefixes; a schedule
-   longer than the fuel is equivalent to its prefix, a shorter one to its padding). *)
+(* C06 — the race of two deliveries: every schedule and every fault position in either delivery, by
+   reflection over the finite domain (5 initial rows x 4 x 4 phases x 5 x 5 fault positions x
+   2^race_fuel schedule prefixes; a schedule longer than the fuel is equivalent to its prefix, a
+   shorter one to its padding). *)
 From Coq Require Import List NArith Bool Arith.
 From SeataV Require Import Fence.FenceModel.
 Import ListNotations.
@@ -52,8 +53,7 @@ Definition perm2 (a b l : list phase) : bool :=
     Nat.eqb (length x) (length y) && forallb (fun p => phase_eqb (fst p) (snd p)) (combine x y) in
   eq (a ++ b) l || eq (b ++ a) l.
 
-Definition race_ok (row : option status) (p1 p2 : phase) (sched : list bool) : bool :=
-  let r := race row p1 p2 sched in
+Definition race_ok_r (row : option status) (r : rstate) : bool :=
   thread_ok row (r_t0 r) && thread_ok row (r_t1 r)
   && match s_owner (r_sh r) with None => true | Some _ => false end
   && legal2 row (s_row (r_sh r)) (s_effs (r_sh r))
@@ -62,28 +62,39 @@ Definition race_ok (row : option status) (p1 p2 : phase) (sched : list bool) : b
   && (errc_eqb (t_err (r_t0 r)) ENone || errc_eqb (t_err (r_t1 r)) ENone
       || (ostatus_eqb (s_row (r_sh r)) row && effs_nil (s_effs (r_sh r)))).
 
-Definition race_table_ok : bool :=
-  forallb (fun row => forallb (fun p1 => forallb (fun p2 =>
-    forallb (fun s => race_ok row p1 p2 s) (all_bools race_fuel)) all_phases) all_phases) all_rows.
+Definition race_ok (row : option status) (p1 p2 : phase) (f1 f2 : option fidx) (sched : list bool) : bool :=
+  race_ok_r row (race row p1 p2 f1 f2 sched).
 
-Lemma race_table_checked : race_table_ok = true.
+Definition all_faults : list (option fidx) := [None; Some F0; Some F1; Some F2; Some F3].
+
+(* stated on the explicit term (not through a named constant): the kernel then matches it syntactically
+   against forallb_forall instead of evaluating the table in its slow conversion machine *)
+Lemma race_table_checked :
+  forallb (fun row => forallb (fun p1 => forallb (fun p2 => forallb (fun f1 => forallb (fun f2 =>
+    forallb (fun s => race_ok row p1 p2 f1 f2 s) (all_bools race_fuel)) all_faults) all_faults)
+    all_phases) all_phases) all_rows = true.
 Proof. vm_cast_no_check (eq_refl true). Qed.
 
 Lemma in_all_rows : forall r, In r all_rows.
 Proof. intros [[]|]; simpl; tauto. Qed.
 Lemma in_all_phases : forall p, In p all_phases.
 Proof. intros []; simpl; tauto. Qed.
+Lemma in_all_faults : forall f, In f all_faults.
+Proof. intros [[]|]; simpl; tauto. Qed.
 
-Lemma race_ok_all : forall row p1 p2 sched, race_ok row p1 p2 sched = true.
+Lemma race_pad : forall row p1 p2 f1 f2 sched,
+  race row p1 p2 f1 f2 sched = race row p1 p2 f1 f2 (pad race_fuel sched).
+Proof. intros. unfold race. apply rrun_pad. Qed.
+
+Lemma race_ok_all : forall row p1 p2 f1 f2 sched, race_ok row p1 p2 f1 f2 sched = true.
 Proof.
-  intros row p1 p2 sched.
-  assert (E : race_ok row p1 p2 sched = race_ok row p1 p2 (pad race_fuel sched)).
-  { unfold race_ok, race. rewrite (rrun_pad race_fuel sched). reflexivity. }
-  rewrite E.
-  pose proof race_table_checked as H. unfold race_table_ok in H.
-  rewrite forallb_forall in H. specialize (H row (in_all_rows row)).
-  rewrite forallb_forall in H. specialize (H p1 (in_all_phases p1)).
-  rewrite forallb_forall in H. specialize (H p2 (in_all_phases p2)).
-  rewrite forallb_forall in H. exact (H _ (pad_in race_fuel sched)).
+  intros row p1 p2 f1 f2 sched.
+  unfold race_ok. rewrite race_pad. fold (race_ok row p1 p2 f1 f2 (pad race_fuel sched)).
+  pose proof race_table_checked as H.
+  pose proof (proj1 (forallb_forall _ _) H row (in_all_rows row)) as H1. clear H.
+  pose proof (proj1 (forallb_forall _ _) H1 p1 (in_all_phases p1)) as H2. clear H1.
+  pose proof (proj1 (forallb_forall _ _) H2 p2 (in_all_phases p2)) as H3. clear H2.
+  pose proof (proj1 (forallb_forall _ _) H3 f1 (in_all_faults f1)) as H4. clear H3.
+  pose proof (proj1 (forallb_forall _ _) H4 f2 (in_all_faults f2)) as H5. clear H4.
+  exact (proj1 (forallb_forall _ _) H5 _ (pad_in race_fuel sched)).
 Qed.
-
